@@ -111,7 +111,12 @@ SHAPES = [
     S(103, 'f', 'REQ',    'Q1 RT R',     nm=True),
     S(104, 'f', 'REQ',    'W1 S1 RT R',  nm=True),
     S(105, 'f', 'SREQ',   'RT R',        nm=True),
+    # ---- f(int) of a mock that is also a deathwatched object (mock id 4 == watched object id 4)
+    S(110, 'f', 'REQ',    'RT R',        nm='w'),
+    S(111, 'f', 'ALLOW',  'R',           nm='w'),
+    S(112, 'f', 'REQ',    'Q1 RT R',     nm='w'),
 ]
+WATCHED_IDS = {110, 111, 112}
 NONMOVABLE_IDS = set(range(100, 106))
 SCOPED_IDS = set(range(70, 82)) | {105}
 
